@@ -22,7 +22,10 @@ func CalculateCacheTTL(msg *dns.Msg, respType ResponseType) time.Duration {
 	isNegative := false
 	switch respType {
 	case TypeSuccess:
-		// Continue with TTL calculation
+		// A CNAME chain that ends in NODATA is classified TypeSuccess (its
+		// answer section is not empty) but carries the target zone's SOA:
+		// that negative part is still bound by RFC 2308.
+		isNegative = hasSOA(msg)
 	case TypeNXDomain, TypeNoRecords:
 		isNegative = true
 	case TypeServerFailure:
